@@ -7,7 +7,9 @@ from props.c03 import (STD, KIND, POOL, COLNAMES, build, jval, unjval, jrow, db_
 ID = 'C04'
 LEVEL = 'proof'
 CLUSTER = 'B'
-GEN_UNITS = ['Consts', 'sql_runtime', 'sql_to_sql_value', 'sql_update_exec', 'sql_update_column_exec', 'sql_add_column_exec']
+GEN_UNITS = ['Consts', 'sql_runtime', 'sql_to_sql_value', 'sql_update_exec', 'sql_update_column_exec', 'sql_add_column_exec', 'get_runtime', 'get_get', 'get_update', 'get_update_column', 'get_add_column', 'get_update_xyz',
+             'parse_runtime', 'parse_fix_chainID']
+EXTRA_TARGETS = ['PdbVerif.Driver.MainA']      # the translated `_fix_chainID` is run by the cluster-A driver (Driver/ExtParse.lean)
 RULE = ('Histories of 1-12 modifications (update on a selection, update_xyz, update_column with / without index and with fewer / more values than rows (zip pairing), add_column, '
         '_fix_chainID) on tables of 0-30 atoms; after EVERY step get("*") and get_colnames() of the real object are compared with '
         'the state of the Lean model (Model.step) and of the reference list-of-records model (Spec.step). Value containers: list '
@@ -417,8 +419,114 @@ def sql_text_checks(ctx):
     return res
 
 
+# ---- parseTie: translated `_fix_chainID` (Gen/ParseLoop.lean) against the real code ---------------------------------------------
+def gen_fix_chainID_tie_checks(ctx):
+    """implementation = generated: the `update_column` call the real `_fix_chainID` makes (recorded by wrapping the method), the
+    exception class and the table afterwards, against `GenP._fix_chainID` run on the same table by the Lean driver (cluster A)"""
+    import vlib, string
+    rng = ctx.rng
+    lines, reals = [], []
+    many = list(string.ascii_uppercase + string.ascii_lowercase + string.digits)
+    nrand = ctx.scale(80, 800)
+    for k in range(nrand + 4):
+        n = rng.choice([0, 1, 2, 3, 5, 8, 12, 30, 40])
+        rows = rand_table(rng, n, rng.choice([0, 0, 0, 0, 0, 2, 3]))
+        mode = rng.random()
+        if k >= nrand:                                   # exactly 25 / 26 / 27 / 30 distinct chains: the exit is at more than 26
+            m = [25, 26, 27, 30][k - nrand]
+            rows = rand_table(rng, m + 3, 0)
+            for i, r in enumerate(rows):
+                r[4] = many[(i * 7) % m]
+        elif mode < 0.25:
+            pool = rng.sample(many, rng.choice([1, 2, 5, 25, 26, 27, 30]))
+            for r in rows:
+                r[4] = rng.choice(pool)
+        elif mode < 0.35:
+            for r in rows:
+                r[4] = rng.choice(['A', 'AB', 'B2', 'seg', 'a'])      # longer identifiers come from the segID fallback of the parser
+        db = call(lambda: build(rows))
+        if is_err(db):
+            continue
+        rows0 = [list(r) for r in db.c.execute('select * from ATOM')]
+        calls = []
+        orig = db.update_column
+
+        def rec(colname, values, index=None, tablename='ATOM', _c=calls, _o=orig):
+            _c.append([colname, canon(list(values)), tablename])
+            return _o(colname, values, index=index, tablename=tablename)
+        db.update_column = rec
+        r = call(lambda: db._fix_chainID())
+        after = canon([list(x) for x in db.c.execute('select * from ATOM')])
+        reals.append({'result': r if is_err(r) else 'ok', 'calls': calls, 'rows': after})
+        lines.append({'op': 'gen_fix_chainID', 'db': db_json([('ATOM', rows0)], nmodel=db._nModel)})
+        call(lambda: db._close())
+    ans = vlib.run_driver(lines, which='model', cluster='A') if lines else []
+    bad, nok, nexit, ntype = None, 0, 0, 0
+    for line, real, a in zip(lines, reals, ans):
+        g = a.get('model')
+        if a.get('driver_error') or not isinstance(g, dict):
+            bad = bad or {'db': short(line['db']), 'generated': str(a)[:400]}
+            continue
+        if isinstance(g['result'], str) and g['result'].startswith('ERR:UNMODELLED'):
+            continue
+        gcalls = g['calls'] if isinstance(g['calls'], list) else []
+        grows = g['db']['tabs'][0]['rows'] if g['db']['tabs'] else []
+        same = (real['result'] == g['result'] and real['calls'] == gcalls and real['rows'] == grows)
+        if not isinstance(g['calls'], list) and real['result'] != g['calls']:
+            same = False
+        nok += real['result'] == 'ok'
+        nexit += real['result'] == 'ERR:Other:SystemExit'
+        ntype += real['result'] == 'ERR:TypeError'
+        if not same:
+            bad = bad or {'db': short(line['db']), 'real': short(real), 'generated': short(g)}
+    return [{'name': f'gen:_fix_chainID update_column call, exception, table afterwards = implementation ({len(lines)} tables: {nok} renamed, '
+                     f'{nexit} with more than 26 chains, {ntype} multi-model)',
+             'ok': bad is None and nok > 10 and nexit > 0 and ntype > 0, 'case': bad,
+             'detail': 'GenP._fix_chainID (translated on this run) run on the table model by the cluster-A driver', 'kind': 'gen-fix-chainID'}]
+
+
+# ---- getTie: begin -----------------------------------------------------------------------------------------------------
+def gen_update_checks(ctx):
+    """the WHOLE translated `update` / `update_xyz` / `update_column` / `add_column` (Gen/Get.lean `GenG.*`: validation, per-model
+    loop, shape checks before anything is modified, `get('rowID')` through the translated `get`, statement and rows run by MicroSql)
+    against the real code on the property's own histories: after every step the outcome and the whole database"""
+    import vlib
+    cs = cases(ctx)
+    sample = ctx.rng.sample(cs, min(ctx.scale(120, 600), len(cs)))
+    lines, outs = [], []
+    for c in sample:
+        outs.append(impl(ctx, c))
+        d = driver_line(c)
+        d['op'] = 'g_hist'
+        for o in d['ops']:
+            if o['name'] == 'add_column':
+                o['value_str'] = str(unjval(o['value']))
+        lines.append(d)
+    ans = vlib.run_driver(lines, which='model', cluster=CLUSTER) if lines else []
+    bad, n, disc, kinds = None, 0, 0, {}
+    for c, out, a in zip(sample, outs, ans):
+        m = a.get('model')
+        if not isinstance(m, dict) or 'gen' not in m:
+            bad = bad or {'ops': short([o['name'] for o in c['ops']]), 'driver': short(m)}
+            continue
+        v = agree_model(c, out, m['gen'])
+        if v == 'discard':
+            disc += 1
+            continue
+        n += 1
+        for o, s in zip(c['ops'], out):
+            kk = o['name'] + (':err' if is_err(s['out']) else '')
+            kinds[kk] = kinds.get(kk, 0) + 1
+        if v is not True and bad is None:
+            bad = {'ops': short([{k: x for k, x in o.items() if k != 'values'} for o in c['ops']], 900), 'disagreement': v}
+    return [{'name': f'whole update / update_xyz / update_column / add_column: real code = GENERATED GenG.* on {n} histories (steps: {kinds}; {disc} outside MicroSql)',
+             'ok': bad is None and n > 40, 'case': bad,
+             'detail': 'Gen/Get.lean (py/translate_ext_get.py): the methods translated whole, their effects run by MicroSql', 'kind': 'gen-get'}]
+# ---- getTie: end -------------------------------------------------------------------------------------------------------
+
+
 def extra_checks(ctx):
-    return sql_text_checks(ctx)
+    return sql_text_checks(ctx) + gen_fix_chainID_tie_checks(ctx) + gen_update_checks(ctx)   # last term: getTie
 
 
 def strip_names(dbj):
